@@ -48,6 +48,9 @@ func c01Child(c c01Case, k *sim.Kind, ns, name, v string) kit.M {
 	o := kit.Obj(k, ns, name)
 	kit.Field(o, v, "spec", "v")
 	kit.Field(o, kit.L{"a", "b"}, "spec", "args") // a plain (non list-map) array the hook specifies
+	if name != "a" {
+		kit.Ann(o, "ex.io/note", "set-by-the-hook") // some children carry annotations of the hook's own
+	}
 	return c01Labels(c, o)
 }
 
